@@ -594,7 +594,9 @@ class Interp:
         if isinstance(f, tuple) and f[0] == "closure":
             node, env, g2, own2 = self.closures[f[1]]
             return self.inline_fn(node, env, args, kw, st, g2, own2, depth, f[2])
-        name = fsrc
+        # the name of a call is read off what the callee DENOTES (self.optimiser_.update_params), not off how the source spells it
+        # (opt = self.optimiser_; opt.update_params(...)): local aliases do not change the trace
+        name = _canon_name(f) or fsrc
         if isinstance(f, tuple) and f[0] == "global":
             name = f[1]
             obj = glob.get(name)
@@ -698,6 +700,16 @@ _AXIS_FIRST = frozenset(("argmax", "argmin", "sum", "mean", "max", "min", "prod"
 _METHOD_EQUIV = _AXIS_FIRST | frozenset(("reshape", "copy", "flatten", "ravel", "transpose", "nonzero", "argsort", "astype", "tolist", "item"))
 _PURE_BUILTINS = frozenset(("dict", "list", "tuple", "set", "frozenset", "len", "int", "float", "bool", "str", "isinstance", "callable", "range"))
 _NEG = {"IsNot": "Is", "NotEq": "Eq", "NotIn": "In"}
+
+
+def _canon_name(f):
+    if isinstance(f, tuple):
+        if f[0] == "var":
+            return f[1]
+        if f[0] == "attr" and isinstance(f[2], str):
+            b = _canon_name(f[1])
+            return None if b is None else b + "." + f[2]
+    return None
 
 
 def canon_cond(v):
